@@ -1406,6 +1406,11 @@ func runFutureAgent(rep *mon.Reporter, c *caseSpec, ai int, sim simOut) bool {
 
 // runFuture: one case of the workload; it returns true if the case was non-trivial and complete.
 func runFuture(rep *mon.Reporter, c *caseSpec) bool {
+	// what the cases before this one left behind (the other workloads do not look at what a run leaves behind: a
+	// streaming run that is aborted by the step limit leaves readers of its pending streams parked) is not this case's
+	for _, g := range mon.Dump() {
+		knownParked[g.ID] = true
+	}
 	sim := simulate(c, false)
 	rep.Count("outcome_"+sim.Outcome, 1)
 	for _, x := range c.Future.ToolImpl {
